@@ -28,6 +28,7 @@ def map_closure_owner(prog, fn, res, e):
 
 def run(ctx):
     prog = ctx.prog
+    QV_ALL = [v["name"] for v in prog.adt(T + "QueryType")["variants"]]
     ctx.rule("C02.1", "records leave the zone only through to_rr, which copies data and TTL; owner = query name for answers/CNAME, the delegating node's name for referrals")
     ctx.rule("C02.2", "zone_result_helper: referral (NS present, qtype != NS, node may delegate) before CNAME (qtype matches neither CNAME nor ANY) before answer")
     ctx.rule("C02.3", "answer arm per query type: ANY -> all record sets, Record(t) -> the set of t, anything else -> empty")
@@ -98,6 +99,26 @@ def run(ctx):
                       "CNAME result built as rr=%s cname=%s" % (A.show(rr)[:100], A.show(d["cname"])[:100]), fn.loc(b, i))
         elif var == "Answer":
             pass  # C02.3
+    # "of the asked type": RecordType::matches - ANY matches everything, a concrete type only itself, AXFR/MAILA/MAILB nothing
+    mt = prog.fn(T + "RecordType::matches")
+    mtr = A.Resolver(mt)
+    mtc = A.Conds(mt, mtr)
+    tab = {}
+    for b_, e_ in A.return_exprs(mt, mtr):
+        pv = A.possible_variants(mt, mtc, lambda x: A.peel(x) == ("param", 2), QV_ALL, b_)
+        pe_ = A.peel(e_)
+        if pe_[0] == "const":
+            val = pe_[2]
+        elif pe_[0] == "call" and (pe_[4] or pe_[1]).endswith("PartialEq::eq") and {A.path_str(pe_[2][0]), A.path_str(pe_[2][1])} == {"param2.<Record>.0", "param1"}:
+            val = "eq"
+        else:
+            val = A.show(pe_)[:60]
+        for v in pv:
+            tab[v] = val
+    want_tab = {v: False for v in QV_ALL}
+    want_tab.update({"Wildcard": True, "Record": "eq"})
+    ctx.check(tab == want_tab, "C02.3", "RecordType::matches:table", "ANY -> true; a type -> equal to it; other query types -> false", "RecordType::matches table is %s" % tab, mt.loc())
+
     # ---------------------------------------------------------------- C02.2
     deleg = [(b, i) for fn, _, b, i, _, e in results if fn is h and e[2] == "Delegation"]
     cname = [(b, i) for fn, _, b, i, _, e in results if fn is h and e[2] == "CNAME"]
